@@ -10,7 +10,7 @@ RULE = ('histories over one file-backed store in a private directory: set / set-
         'register-patch-priority-unregister-shutdown; keys and values aimed at the separators (=, #, blanks, empty, '
         'prefixes of each other, bytes above 127), universe ids at 0, 2^31-1, 2^31, 2^32-1, priorities at 0, 200, '
         '201, 255; a minority of inputs outside the side conditions (untrimmed, key with =, embedded newline). '
-        'Every observable compared after every operation; the directory image after every system call of every '
+        'Keys and values of 1000, 4000, 4090..4100, 8191..8193, 65536 bytes and 1 MB (alone, between other entries, as one value of a multi-valued key) are saved and reloaded; sizes up to 1 MB are exercised, the theorems (c18_roundtrip) have no length bound. Every observable compared after every operation; the directory image after every system call of every '
         'save is loaded by a fresh store. non-trivial = some save wrote a non-empty file and some later step '
         'shows a non-empty store; distinct = distinct model output line')
 ASSUMPTIONS = ['a crash is a process crash: what the kernel holds after the last completed system call is what the '
@@ -145,6 +145,27 @@ def gen_cases(rng, tier):
         if rng.random() < 0.4:
             ops += fill(rng, rng.randint(1, 3), keys) + ['V', 'L']
         yield ' '.join(ops)
+    # 2b. long keys and values: sizes around every buffer size a line reader / stream might have
+    #     (4096, 8192, 65536) and ~1 MB; alone, followed by further entries, as one value of a
+    #     multi-valued key.  No crash sweeps for these (the images are large).
+    def longs(n):
+        body = ''.join(rng.choice('abcdefghijklmnopqrstuvwxyz0123456789=# ') for _ in range(64)) * (n // 64 + 1)
+        s = 'L' + body[:max(0, n - 2)] + 'E'
+        return s[:n] if n >= 2 else 'L'[:n]
+    sizes = [1000, 4000, 4090, 4091, 4092, 4093, 4094, 4095, 4096, 4097, 4098, 4099, 4100, 8191, 8192, 8193, 65536]
+    if not quick:
+        sizes += [1023, 1024, 1025, 16384, 65535, 65537, 131072]
+    for n in sizes:
+        v = longs(n)
+        yield 'S:%s:%s V L G:%s' % (hx('k'), hx(v), hx('k'))                       # alone
+        yield 'S:%s:%s S:%s:%s S:%s:%s S:%s:%s V L G:%s G:%s' % (                   # entries before and after it
+            hx('a'), hx('1'), hx('k'), hx(v), hx('m'), hx('2'), hx('z'), hx('x=y'), hx('a'), hx('z'))
+        if n <= 8193 or not quick:
+            yield 'M:%s:%s M:%s:%s M:%s:%s S:%s:%s V L G:%s' % (                    # one long value of a multi-valued key
+                hx('multi'), hx('1'), hx('multi'), hx(v), hx('multi'), hx('3'), hx('zz'), hx('t'), hx('multi'))
+            yield 'S:%s:%s S:%s:%s V L G:%s' % (hx(longs(n).replace('=', '-')), hx('v'), hx('z'), hx('1'), hx('z'))   # long key
+    for n in ([1 << 20] if quick else [1 << 20, (1 << 20) + 1, 3000000]):
+        yield 'S:%s:%s S:%s:%s S:%s:%s V L G:%s' % (hx('a'), hx('1'), hx('k'), hx(longs(n)), hx('z'), hx('2'), hx('z'))
     # 3. a crash after every system call of a save, then restart; then life goes on
     for i in range(120 * scale):
         keys = [rkey(rng) for _ in range(rng.randint(1, 3))]
